@@ -162,7 +162,7 @@ func TestVerif_C20(t *testing.T) {
 	c.SetExhaustive(true)
 	// random long sequences with hostile messages
 	hostile := []string{"a", "b", "", "100%", "%d %s %v", "line\n", "two\nlines", "a ", " a", "ａ", "a\x00"}
-	nrand := c.N(300, 20000)
+	nrand := c.N(300, 100000)
 	for s := int64(0); s < nrand; s++ {
 		myIdx := idx
 		idx++
